@@ -115,7 +115,9 @@ unsigned long VARIANT_GET(Result* r, int alt) __CPROVER_requires(r->held == alt)
     def sec1():
         nonlocal state_contract
         b_state = find_body(repo, F, r'ResultState\s+State\s*\(\s*\)\s*const\s+noexcept', 'Result::State', within=within)
-        c = Rewriter('Result::State', pre=[(r'ResultState\{\s*static_cast<unsigned char>\(\s*_result\.index\(\)\s*\)\s*\}', '((unsigned char)VARIANT_INDEX(self))', 1)], nomembers=['_result']).rewrite(b_state.text)
+        # `_result.index()` is the variant's index; `ResultState{x}` converts the number to the enumeration (the number is what the contract speaks about); a named local for the index is fine
+        c = Rewriter('Result::State', pre=[(r'_result\.index\(\)', 'VARIANT_INDEX(self)', 1), (r'ResultState\{((?:[^{}])*)\}', r'((unsigned char)(\1))', 1),
+                                           (r'(?:const\s+)?auto\s+(\w+)\s*=', r'unsigned long \1 =', 0)], nomembers=['_result']).rewrite(b_state.text)
         state_contract = '''unsigned char State(Result* self)
 __CPROVER_requires(%s)
 __CPROVER_assigns()
